@@ -264,7 +264,7 @@ func c40TemporalCols(t *rapid.T, l string) []c40Col {
 	return []c40Col{
 		{label: "YEAR", class: "year", typ: gmstypes.Year, keyOK: true, styp: querypb.Type_YEAR,
 			gen: func(t *rapid.T, l string) any {
-				if rapid.IntRange(0, 9).Draw(t, l+".zero") == 0 {
+				if rapid.IntRange(0, 24).Draw(t, l+".zero") == 0 {
 					return int16(0)
 				}
 				return rapid.Int16Range(1901, 2155).Draw(t, l)
@@ -278,7 +278,7 @@ func c40TemporalCols(t *rapid.T, l string) []c40Col {
 			})},
 		{label: "DATE", class: "date", typ: gmstypes.Date, keyOK: true, styp: querypb.Type_DATE,
 			gen: func(t *rapid.T, l string) any {
-				if rapid.IntRange(0, 19).Draw(t, l+".zero") == 0 {
+				if rapid.IntRange(0, 39).Draw(t, l+".zero") == 0 {
 					return gmstypes.ZeroTime
 				}
 				x := c40GenCivil(t, l, 0, 1, 9999)
@@ -302,7 +302,7 @@ func c40TemporalCols(t *rapid.T, l string) []c40Col {
 			verify: c40TextCmp(func(v any) string { return c40TimeText(int64(v.(gmstypes.Timespan))) })},
 		{label: fmt.Sprintf("DATETIME(%d)", dp), class: "datetime", typ: dtTyp, keyOK: true, styp: querypb.Type_DATETIME,
 			gen: func(t *rapid.T, l string) any {
-				if rapid.IntRange(0, 19).Draw(t, l+".zero") == 0 {
+				if rapid.IntRange(0, 39).Draw(t, l+".zero") == 0 {
 					return gmstypes.ZeroTime
 				}
 				return c40GenCivil(t, l, dp, 1, 9999)
@@ -475,7 +475,7 @@ func c40BinaryCol(t *rapid.T, l string) c40Col {
 		verify: c40BytesCmp(func(v any) []byte { return v.([]byte) })}
 }
 
-func c40GenLob(t *rapid.T, l string, maxLen int) []byte {
+func c40GenLob(t *rapid.T, l string, maxLen int, binary bool) []byte {
 	n := 0
 	switch rapid.IntRange(0, 11).Draw(t, l+".lenClass") {
 	case 0:
@@ -490,10 +490,17 @@ func c40GenLob(t *rapid.T, l string, maxLen int) []byte {
 	if n > maxLen {
 		n = maxLen
 	}
-	head := rapid.SliceOfN(rapid.ByteRange(0x20, 0x7e), 0, 8).Draw(t, l+".head")
-	fill := rapid.ByteRange(0x20, 0x7e).Draw(t, l+".fill")
+	lo, hi := byte(0x20), byte(0x7e)
+	if binary {
+		lo, hi = 0, 0xff
+	}
+	head := rapid.SliceOfN(rapid.ByteRange(lo, hi), 0, 8).Draw(t, l+".head")
+	fill := rapid.ByteRange(lo, hi).Draw(t, l+".fill")
 	out := bytes.Repeat([]byte{fill}, n)
 	copy(out, head)
+	if !binary && n >= 8 && rapid.Bool().Draw(t, l+".multibyte") {
+		copy(out[n-8:], "\u00e9\u65e5\u672c") // 2+3+3 bytes of multi-byte text at the end
+	}
 	return out
 }
 
@@ -505,7 +512,7 @@ func c40LobCol(t *rapid.T, l string) c40Col {
 	if rapid.Bool().Draw(t, l+".text") {
 		typ := []sql.StringType{gmstypes.TinyText, gmstypes.Text, gmstypes.MediumText, gmstypes.LongText}[size]
 		c := c40Col{label: names[size] + "TEXT", class: "text", typ: typ, varlen: true, styp: querypb.Type_TEXT,
-			gen:    func(t *rapid.T, l string) any { return string(c40GenLob(t, l, maxLens[size])) },
+			gen:    func(t *rapid.T, l string) any { return string(c40GenLob(t, l, maxLens[size], false)) },
 			str:    func(v any) string { return "'" + c40Short([]byte(v.(string))) + "'" },
 			verify: c40BytesCmp(func(v any) []byte { return []byte(v.(string)) })}
 		if legacy {
@@ -515,7 +522,7 @@ func c40LobCol(t *rapid.T, l string) c40Col {
 	}
 	typ := []sql.StringType{gmstypes.TinyBlob, gmstypes.Blob, gmstypes.MediumBlob, gmstypes.LongBlob}[size]
 	c := c40Col{label: names[size] + "BLOB", class: "blob", typ: typ, varlen: true, styp: querypb.Type_BLOB,
-		gen:    func(t *rapid.T, l string) any { return c40GenLob(t, l, maxLens[size]) },
+		gen:    func(t *rapid.T, l string) any { return c40GenLob(t, l, maxLens[size], true) },
 		str:    func(v any) string { return "x'" + c40Short(v.([]byte)) + "'" },
 		verify: c40BytesCmp(func(v any) []byte { return v.([]byte) })}
 	if legacy {
@@ -640,7 +647,7 @@ func c40GenJsonString(t *rapid.T, l string, big *bool) string {
 }
 
 func c40GenJsonKey(t *rapid.T, l string) string {
-	switch rapid.IntRange(0, 15).Draw(t, l+".keyClass") {
+	switch rapid.IntRange(0, 29).Draw(t, l+".keyClass") {
 	case 0:
 		n := rapid.SampledFrom([]int{254, 255, 256, 257, 300, 511, 512, 1000}).Draw(t, l+".keyLen")
 		return strings.Repeat("k", n)
@@ -1164,11 +1171,60 @@ var c40Findings = []c40Finding{
 	}},
 	{"C40-json-element-over-64k-in-small-container", func(c *c40Col, v any) bool {
 		j, ok := v.(c40JsonVal)
-		return ok && c40JsonAny(j.doc, func(e any, _ string, isKey bool) bool {
-			s, isStr := e.(string)
-			return !isKey && isStr && len(s) > 65000
-		})
+		return ok && c40JsonAny(j.doc, func(e any, _ string, isKey bool) bool { return !isKey && c40JsonEncSize(e) > 65535 })
 	}},
+}
+
+// c40JsonEncSize is the size of a value in MySQL's binary JSON format (without its type byte):
+// containers use the 2-byte format when everything fits below 64 KiB, else the 4-byte format.
+func c40JsonEncSize(v any) int {
+	container := func(n int, keyBytes int, isObj bool, elems []any) int {
+		body := keyBytes
+		for _, e := range elems {
+			switch e.(type) {
+			case nil, bool:
+			default:
+				body += c40JsonEncSize(e)
+			}
+		}
+		per := 3
+		if isObj {
+			per += 4
+		}
+		if small := 4 + n*per + body; small <= 65535 {
+			return small
+		}
+		per = 5
+		if isObj {
+			per += 6
+		}
+		return 8 + n*per + body
+	}
+	switch x := v.(type) {
+	case nil, bool:
+		return 1
+	case float64:
+		return 8
+	case string:
+		switch {
+		case len(x) < 128:
+			return 1 + len(x)
+		case len(x) < 16384:
+			return 2 + len(x)
+		}
+		return 3 + len(x)
+	case []any:
+		return container(len(x), 0, false, x)
+	case map[string]any:
+		kb := 0
+		elems := make([]any, 0, len(x))
+		for k, e := range x {
+			kb += len(k)
+			elems = append(elems, e)
+		}
+		return container(len(x), kb, true, elems)
+	}
+	return 0
 }
 
 func c40KnownOpen(c *c40Col, v any) string {
@@ -1573,5 +1629,5 @@ func TestVerif_C40(t *testing.T) {
 		"geometry: POINT, LINESTRING, POLYGON in a GEOMETRY column, compared as MySQL's internal format (SRID + WKB) bytes")
 	defer rec.Write(t)
 	t.Run("pinned", c40Pinned)
-	vh.Check(t, "rows", 2500, 6000, func(rt *rapid.T) { c40Case(rt, rec) })
+	vh.Check(t, "rows", 12000, 30000, func(rt *rapid.T) { c40Case(rt, rec) })
 }
